@@ -137,6 +137,13 @@ impl CompactionHandover {
         let drained_labels = {
             let _guard = self.flush_lock.lock().await;
             let mut index = SegmentIndex::load(&self.shard_dir).await?;
+            #[cfg(feature = "verif")]
+            crate::verif::gate(
+                "compact.index_locked",
+                self.shard_id as usize,
+                new_entries.first().map(|e| e.id as u64).unwrap_or(0),
+            )
+            .await;
 
             // Log segment states before retirement
             let segments_before: Vec<_> = input_labels
